@@ -72,6 +72,13 @@ Lemma exec_block_SForWB P cf lf e x it b r :
   match o with ONorm e1 => exec_block P cf lf e1 r | _ => PyLite.Ok o end.
 Proof. reflexivity. Qed.
 
+(** an [if] whose branches are to stay blocks (the executor otherwise runs nested blocks by reduction,
+    which would open the loop inside) *)
+Lemma exec_SIf P cf lf e c a b :
+  exec P cf lf e (SIf c a b) =
+  do (vc, e1) <- eval P cf e c; if truthy vc then exec_block P cf lf e1 a else exec_block P cf lf e1 b.
+Proof. reflexivity. Qed.
+
 (** a plain loop ([SFor] with a name as target) and the loop with write-back agree when the body
     leaves the loop variable alone: the write-back then stores the element it read.  (Sanity of the
     extension; not used by the proofs.) *)
